@@ -84,6 +84,32 @@ def all_configs():
     return out
 
 
+def covering_configs():
+    """greedy pairwise (strength-2) covering array over the five binary switches."""
+    allc = all_configs()
+    need = set()
+    n = len(SWITCHES)
+    for a in range(n):
+        for b in range(a + 1, n):
+            for va in (0, 1):
+                for vb in (0, 1):
+                    need.add((a, va, b, vb))
+    chosen = []
+    # the all-zero configuration first: it is the one furthest from the shipped build
+    order = sorted(allc, key=lambda c: sum(c.values()))
+    while need:
+        best, gain = None, -1
+        for c in order:
+            vals = [c[s] for s in SWITCHES]
+            g = sum(1 for (a, va, b, vb) in need if vals[a] == va and vals[b] == vb)
+            if g > gain:
+                best, gain = c, g
+        chosen.append(best)
+        vals = [best[s] for s in SWITCHES]
+        need = {(a, va, b, vb) for (a, va, b, vb) in need if not (vals[a] == va and vals[b] == vb)}
+    return chosen
+
+
 def hook_present(repo=REPO):
     try:
         return GUARD in open(os.path.join(repo, "src", "skinny-internal.h")).read()
